@@ -468,7 +468,8 @@ func (cs *c13Case) runFollow(conn *c13Conn, client *ch.Client, ver int, base int
 		for _, s := range q.Settings {
 			pq.Settings = append(pq.Settings, proto.Setting{Key: s.Key, Value: s.Value, Important: s.Important})
 		}
-		if f.span != nil {
+		if f.span != nil && proto.FeatureOpenTelemetry.In(ver) {
+			// below that revision the field does not exist: the expected bytes are those of the untraced query
 			pq.Info.Span = *f.span
 		}
 		pq.EncodeAware(&want, ver)
